@@ -256,6 +256,16 @@ GOALS = {
                                        {"a": "SetOther", "s": "s2", "t": "g1", "u": "u3", "mode": ["J", "R", "A", "S", "O"], "chan": False},
                                        {"a": "Get", "s": "s2", "t": "g1", "what": "desc sub", "since": 0, "before": 0, "limit": 0, "chan": False},
                                        {"a": "SetOther", "s": "s2", "t": "g1", "u": "u1", "mode": ["J", "R"], "chan": False}]),
+    # two members subscribe to an UNLOADED topic at the same time: the second {sub} reaches the hub while the first one's topicInit is
+    # parked inside the store read. There must still be ONE live topic: both end up attached to it, and numbering stays single
+    "two_joins_while_loading": ('st.topics["g1"].exists /\\ ~st.cache["g1"].loaded /\\ st.subs["g1"]["u1"].st = "live" /\\ st.subs["g1"]["u2"].st = "live" '
+                                '/\\ "W" \\in Eff(st.subs["g1"]["u1"]) /\\ {"R", "W"} \\subseteq Eff(st.subs["g1"]["u2"])',
+                                [{"a": "Sub", "s": "s1", "t": "g1", "mode": ["-"], "chan": False, "bg": False,
+                                  "during": {"method": "TopicGet", "do": {"a": "Sub", "s": "s2", "t": "g1", "mode": ["-"], "chan": False, "bg": False}}},
+                                 {"a": "Pub", "s": "s2", "t": "g1", "c": "c1", "noecho": False, "chan": False},
+                                 {"a": "Pub", "s": "s1", "t": "g1", "c": "c2", "noecho": False, "chan": False},
+                                 {"a": "Pub", "s": "s2", "t": "g1", "c": "c2", "noecho": False, "chan": False},
+                                 {"a": "Get", "s": "s1", "t": "g1", "what": "desc sub", "since": 0, "before": 0, "limit": 0, "chan": False}]),
     "banned_and_unsubscribed": ('st.topics["g1"].exists /\\ st.subs["g1"]["u2"].st = "del" /\\ "J" \\notin M(st.subs["g1"]["u2"].given)',
                                 [{"a": "Sub", "s": "s2", "t": "g1", "mode": ["-"], "chan": False, "bg": False},
                                  {"a": "Pub", "s": "s2", "t": "g1", "c": "c1", "noecho": False, "chan": False}]),
